@@ -17,12 +17,14 @@ THEOREMS = [
     "GoaktVerif.C20.C20_stream_holds",
     "GoaktVerif.C20.C20_holds",
     "GoaktVerif.C20.C20_conservation",
+    "GoaktVerif.C20.agree_step",
+    "GoaktVerif.C20.C20_log_agrees",
     "GoaktVerif.C20.C20_pooled_refuted",
     "GoaktVerif.C20.C20_pooled_witness_outcome",
 ]
 MANIFEST = {
     "level_text": "Kernel-checked, no bounds: (1) C20_queue_holds - the subscriber queue (internal/queue/queue.go as it is since fix c76ec1e, model Mode.fresh: Michael-Scott queue at atomic-operation granularity, any number of enqueuer/dequeuer/Iterator/signal/Shutdown threads, any programs, EVERY schedule) refines a FIFO: the log of linearization events (each emitted by a step of the operation itself: successful CAS:next, successful CAS:head, Load:next=nil) is a FIFO history and the values sequential Dequeues return from any reachable configuration are exactly the abstract queue (inductive invariant Inv: one chain of linked nodes, owned unlinked nodes, ghost log; inv_init, inv_step, inv_observable); C20_conservation: enqueued = dequeued ++ remaining, so nothing is lost, duplicated or reordered. (2) C20_stream_holds - for EVERY sequence of AddSubscriber/Subscribe/Unsubscribe/RemoveSubscriber/Publish/Broadcast/Iterator/Shutdown/Close each Iterator() returns exactly the messages published since the previous call while that subscriber was subscribed and active, in publish order, once (simulation to a per-subscriber specification). (3) C20_pooled_refuted - the queue as it was before the fix does NOT refine a FIFO (17-step schedule, decide). Tie, re-run on every check: the queue+subscriber model is replayed step-for-step against the real code under controlled schedules (same atomic-site labels from yieldinject, same results, same final heap digest; SITES pins the site sequence per function), the stream model by a sequential differential; the outcome oracle (exactly once, per-publisher order, no Iterator panic, Length 0 after drain) is evaluated on the implementation's own output.",
-    "level_note": "Partial in these respects: Publish/Subscribe/Unsubscribe racing each other are mutex-protected in eventstream.go and modelled sequentially only (the concurrent part of the theorem is the subscriber queue, where the lock-free code is); the link between the ghost linearization log and the values operations return is by construction of the model (the event is logged by the step that fixes the return value) and sampled by the tie, not yet a separate theorem. Trusted: sync/atomic is sequentially consistent; plain accesses between two atomic sites execute with the preceding site; Go's GC keeps a node alive while any goroutine holds a pointer to it (that is what makes never-recycled nodes safe).",
+    "level_note": "Partial in these respects: Publish/Subscribe/Unsubscribe racing each other are mutex-protected in eventstream.go and modelled sequentially only (the concurrent part of the theorem is the subscriber queue, where the lock-free code is); the ghost linearization log is tied to the values operations return by theorem C20_log_agrees (per thread, events = results). Trusted: sync/atomic is sequentially consistent; plain accesses between two atomic sites execute with the preceding site; Go's GC keeps a node alive while any goroutine holds a pointer to it (that is what makes never-recycled nodes safe).",
     "technique": "Lean 4 inductive invariant over a small-step model at atomic-operation granularity (all schedules), model replayed against the real code under controlled schedules (yield injection), simulation proof for the sequential stream layer, refutation of the pre-fix code by kernel evaluation of a concrete schedule",
 }
 TRUSTED = [
